@@ -392,6 +392,7 @@ func newTree(parent Tree, s *Segment) (Tree, error) {
 		if _, exists := parentBindSet[bind]; exists {
 			return nil, errors.Errorf("duplicated bind parameter %q in position %d", bind, s.Pos.Offset)
 		}
+		parentBindSet[bind] = struct{}{} // Bind parameters must also be unique within the segment
 	}
 
 	return &regexTree{
